@@ -764,7 +764,7 @@ def run(repo, check):
     check.run_rule(rule_r1, repo)
     check.run_rule(rule_r2, repo)
     check.run_rule(rule_r3, repo)
-    r4 = c08.rule_r5(repo)
+    r4 = check.call(c08.rule_r5, repo)
     r4.rule = 'C13.R4'
     for f in r4.findings:
         f.rule = 'C13.R4'
@@ -773,7 +773,7 @@ def run(repo, check):
     check.run_rule(rule_r6, repo)
     check.run_rule(rule_r7, repo)
     from sa.rules import c17
-    r8 = c17.rule_r3(repo)
+    r8 = check.call(c17.rule_r3, repo)
     r8.rule = 'C13.R8'
     r8.title = 'configuration transformers never write into the decoder\'s shared section layouts (shared with C17.R3)'
     r8.findings = [f for f in r8.findings if 'mutates' in f.key]
